@@ -96,6 +96,8 @@ def run(ctx):
         if len(seen) >= 8:
             break
         rest = rest[:info["index"] - 1] + rest[info["index"]:]
+    if events:
+        vf.selftest_event(ctx, "HttpProbeTrace", dict(events[0], durMs=10 ** 7), "duration of an accepted probe set to 10^7 ms")
     for e in events[:3]:
         ctx.sample(e)
     # socket-level tier: the real binary - -t reaches every request of a probe (servers that accept and stall), and with 16 workers against
